@@ -23,12 +23,13 @@ VARIABLES
   inflight,  \* <<>> or <<db>>: a commit() has been entered and has not returned
   wtx,       \* the write transaction (wtx.on = FALSE when there is none)
   readers,   \* read transaction handle -> index into hist
+  rpend,     \* begin_read() calls in flight on other threads: handle -> Len(hist) when the call started
   eph,       \* ephemeral savepoint handle -> [ord, idx, valid]
   nextOrd,   \* creation counter shared by all savepoints ("created after" = larger ord)
   its,       \* held iterator handle -> [idx, t, rem]  (guards/iterators outliving calls)
   latch      \* "ok" | "failed": after a failed commit writes are refused until reopen
 
-kvVars == <<hist, dur, inflight, wtx, readers, eph, nextOrd, its, latch>>
+kvVars == <<hist, dur, inflight, wtx, readers, rpend, eph, nextOrd, its, latch>>
 
 -----------------------------------------------------------------------------
 (* Generic helpers *)
@@ -164,6 +165,7 @@ Init ==
   /\ inflight = <<>>
   /\ wtx = NoTx
   /\ readers = EmptyFn
+  /\ rpend = EmptyFn
   /\ eph = EmptyFn
   /\ nextOrd = 1
   /\ its = EmptyFn
@@ -181,14 +183,14 @@ BeginWrite(res) ==
                      pspMod |-> FALSE, inval |-> {}]
      ELSE /\ IsErr(res)
           /\ UNCHANGED wtx
-  /\ UNCHANGED <<hist, dur, inflight, readers, eph, nextOrd, its, latch>>
+  /\ UNCHANGED <<hist, dur, inflight, readers, rpend, eph, nextOrd, its, latch>>
 
 SetDurability(d, res) ==
   /\ wtx.on
   /\ IF wtx.pspMod /\ d # "imm"
      THEN IsE(res, "PersistentSavepointModified") /\ UNCHANGED wtx
      ELSE res = Ok(0) /\ wtx' = [wtx EXCEPT !.d = d]
-  /\ UNCHANGED <<hist, dur, inflight, readers, eph, nextOrd, its, latch>>
+  /\ UNCHANGED <<hist, dur, inflight, readers, rpend, eph, nextOrd, its, latch>>
 
 \* the state a commit of the current write transaction would produce
 Candidate == [t |-> wtx.t, psp |-> wtx.psp]
@@ -202,7 +204,7 @@ EphAfterCommit == [h \in DOMAIN eph |->
 CommitBegin ==
   /\ wtx.on /\ wtx.open = {} /\ inflight = <<>>
   /\ inflight' = IF wtx.poisoned THEN <<>> ELSE <<Candidate>>
-  /\ UNCHANGED <<hist, dur, wtx, readers, eph, nextOrd, its, latch>>
+  /\ UNCHANGED <<hist, dur, wtx, readers, rpend, eph, nextOrd, its, latch>>
 
 \* commit() returned res
 CommitEnd(res) ==
@@ -224,7 +226,7 @@ CommitEnd(res) ==
              \/ /\ hist' = Append(hist, Candidate)
                 /\ eph' = EphAfterCommit
                 /\ UNCHANGED dur
-  /\ UNCHANGED <<readers, nextOrd, its>>
+  /\ UNCHANGED <<readers, rpend, nextOrd, its>>
 
 \* abort(), or the transaction handle dropped: nothing remains.  Ephemeral savepoints created
 \* inside the transaction stay usable (they captured the committed state).
@@ -232,19 +234,34 @@ Abort(res) ==
   /\ wtx.on /\ wtx.open = {}
   /\ res = Ok(0) \/ IsErr(res)
   /\ wtx' = NoTx
-  /\ UNCHANGED <<hist, dur, inflight, readers, eph, nextOrd, its, latch>>
+  /\ UNCHANGED <<hist, dur, inflight, readers, rpend, eph, nextOrd, its, latch>>
 
 BeginRead(h, res) ==
   /\ h \notin DOMAIN readers
   /\ IF IsErr(res)
      THEN UNCHANGED readers
      ELSE readers' = Put(readers, h, Len(hist))
+  /\ UNCHANGED <<hist, dur, inflight, wtx, rpend, eph, nextOrd, its, latch>>
+
+\* begin_read() called from another thread while commits go on: the call starts (BeginReadStart) and
+\* returns (BeginReadEnd); its snapshot is some commit point completed in between - not older than
+\* the latest commit completed when it started, not newer than the latest completed when it returned
+BeginReadStart(h) ==
+  /\ h \notin DOMAIN readers /\ h \notin DOMAIN rpend
+  /\ rpend' = Put(rpend, h, Len(hist))
+  /\ UNCHANGED <<hist, dur, inflight, wtx, readers, eph, nextOrd, its, latch>>
+
+BeginReadEnd(h, res) ==
+  /\ h \in DOMAIN rpend
+  /\ rpend' = Del(rpend, h)
+  /\ IF IsErr(res) THEN UNCHANGED readers
+     ELSE \E i \in rpend[h]..Len(hist) : readers' = Put(readers, h, i)
   /\ UNCHANGED <<hist, dur, inflight, wtx, eph, nextOrd, its, latch>>
 
 DropRead(h) ==
   /\ h \in DOMAIN readers
   /\ readers' = Del(readers, h)
-  /\ UNCHANGED <<hist, dur, inflight, wtx, eph, nextOrd, its, latch>>
+  /\ UNCHANGED <<hist, dur, inflight, wtx, rpend, eph, nextOrd, its, latch>>
 
 -----------------------------------------------------------------------------
 (* The catalog.  src = "w" for the write transaction, otherwise a reader.  *)
@@ -272,13 +289,13 @@ OpenW(n, kind, kt, vt, res) ==
      ELSE /\ res = Ok(0)
           /\ wtx' = [wtx EXCEPT !.open = @ \cup {n}, !.dirty = TRUE,
                                 !.t = IF n \in DOMAIN @ THEN @ ELSE Put(@, n, NewTable(kind, kt, vt))]
-  /\ UNCHANGED <<hist, dur, inflight, readers, eph, nextOrd, its, latch>>
+  /\ UNCHANGED <<hist, dur, inflight, readers, rpend, eph, nextOrd, its, latch>>
 
 \* the table handle is dropped
 CloseW(n) ==
   /\ wtx.on /\ n \in wtx.open
   /\ wtx' = [wtx EXCEPT !.open = @ \ {n}]
-  /\ UNCHANGED <<hist, dur, inflight, readers, eph, nextOrd, its, latch>>
+  /\ UNCHANGED <<hist, dur, inflight, readers, rpend, eph, nextOrd, its, latch>>
 
 \* open in a read transaction: no state, only the result
 OpenR(h, n, kind, kt, vt, res) ==
@@ -301,7 +318,7 @@ Rename(a, b, kind, res) ==
           /\ wtx' = [wtx EXCEPT !.dirty = TRUE]
      ELSE /\ res = Ok(0)
           /\ wtx' = [wtx EXCEPT !.dirty = TRUE, !.t = Put(Del(T, a), b, T[a])]
-  /\ UNCHANGED <<hist, dur, inflight, readers, eph, nextOrd, its, latch>>
+  /\ UNCHANGED <<hist, dur, inflight, readers, rpend, eph, nextOrd, its, latch>>
 
 Delete(a, kind, res) ==
   /\ wtx.on
@@ -310,7 +327,7 @@ Delete(a, kind, res) ==
      ELSE IF a \notin DOMAIN T THEN res = Ok(FALSE) /\ wtx' = [wtx EXCEPT !.dirty = TRUE]
      ELSE IF T[a].kind # kind THEN IsE(res, KindErr(T[a].kind)) /\ wtx' = [wtx EXCEPT !.dirty = TRUE]
      ELSE res = Ok(TRUE) /\ wtx' = [wtx EXCEPT !.dirty = TRUE, !.t = Del(T, a)]
-  /\ UNCHANGED <<hist, dur, inflight, readers, eph, nextOrd, its, latch>>
+  /\ UNCHANGED <<hist, dur, inflight, readers, rpend, eph, nextOrd, its, latch>>
 
 \* list_tables / list_multimap_tables: res is a sequence of names in any order without repeats
 List(src, kind, res) ==
@@ -363,7 +380,7 @@ RangeOp(src, n, lo, hi, cnt, rev, alt, res) ==
 
 WOk(n, kind) == wtx.on /\ n \in wtx.open /\ wtx.t[n].kind = kind
 SetC(n, c) == wtx' = [wtx EXCEPT !.t[n].c = c]
-Rest == UNCHANGED <<hist, dur, inflight, readers, eph, nextOrd, its, latch>>
+Rest == UNCHANGED <<hist, dur, inflight, readers, rpend, eph, nextOrd, its, latch>>
 
 \* insert: returns the previous value
 Insert(n, k, v, res) ==
@@ -495,7 +512,7 @@ MRange(src, n, lo, hi, rev, res) ==
 Hold(it, src, n, lo, hi) ==
   /\ it \notin DOMAIN its /\ src # "w" /\ ReadOk(src, n, "t")
   /\ its' = Put(its, it, [idx |-> readers[src], t |-> n, rem |-> Sel(Content(src, n), lo, hi)])
-  /\ UNCHANGED <<hist, dur, inflight, wtx, readers, eph, nextOrd, latch>>
+  /\ UNCHANGED <<hist, dur, inflight, wtx, readers, rpend, eph, nextOrd, latch>>
 
 ItNext(it, cnt, rev, res) ==
   /\ IsOk(res)
@@ -503,12 +520,12 @@ ItNext(it, cnt, rev, res) ==
   /\ LET c == hist[its[it].idx].t[its[it].t].c IN
        /\ ValidTake(res.ok, its[it].rem, c, cnt, rev, FALSE)
        /\ its' = [its EXCEPT ![it].rem = @ \ TakenKeys(res.ok)]
-  /\ UNCHANGED <<hist, dur, inflight, wtx, readers, eph, nextOrd, latch>>
+  /\ UNCHANGED <<hist, dur, inflight, wtx, readers, rpend, eph, nextOrd, latch>>
 
 ItDrop(it) ==
   /\ it \in DOMAIN its
   /\ its' = Del(its, it)
-  /\ UNCHANGED <<hist, dur, inflight, wtx, readers, eph, nextOrd, latch>>
+  /\ UNCHANGED <<hist, dur, inflight, wtx, readers, rpend, eph, nextOrd, latch>>
 
 -----------------------------------------------------------------------------
 (* Savepoints *)
@@ -522,13 +539,13 @@ EphSavepoint(s, res) ==
           /\ eph' = Put(eph, s, [ord |-> nextOrd, idx |-> wtx.base, valid |-> TRUE])
           /\ nextOrd' = nextOrd + 1
           /\ UNCHANGED wtx
-  /\ UNCHANGED <<hist, dur, inflight, readers, its, latch>>
+  /\ UNCHANGED <<hist, dur, inflight, readers, rpend, its, latch>>
 
 \* the Savepoint handle is dropped (any time, any thread)
 EphDrop(s) ==
   /\ s \in DOMAIN eph
   /\ eph' = Del(eph, s)
-  /\ UNCHANGED <<hist, dur, inflight, wtx, readers, nextOrd, its, latch>>
+  /\ UNCHANGED <<hist, dur, inflight, wtx, readers, rpend, nextOrd, its, latch>>
 
 \* persistent_savepoint(): res.ok is the id
 PersSavepoint(res) ==
@@ -541,14 +558,14 @@ PersSavepoint(res) ==
           /\ wtx' = [wtx EXCEPT !.psp = Put(@, res.ok, [idx |-> wtx.base, ord |-> nextOrd]),
                                 !.pspMod = TRUE]
           /\ nextOrd' = nextOrd + 1
-  /\ UNCHANGED <<hist, dur, inflight, readers, eph, its, latch>>
+  /\ UNCHANGED <<hist, dur, inflight, readers, rpend, eph, its, latch>>
 
 DeletePersSavepoint(id, res) ==
   /\ wtx.on
   /\ IF wtx.d # "imm" THEN IsE(res, "ImmediateDurabilityRequired") /\ UNCHANGED wtx
      ELSE IF id \notin DOMAIN wtx.psp THEN res = Ok(FALSE) /\ UNCHANGED wtx
      ELSE res = Ok(TRUE) /\ wtx' = [wtx EXCEPT !.psp = Del(@, id), !.pspMod = TRUE]
-  /\ UNCHANGED <<hist, dur, inflight, readers, eph, nextOrd, its, latch>>
+  /\ UNCHANGED <<hist, dur, inflight, readers, rpend, eph, nextOrd, its, latch>>
 
 ListPersSavepoints(res) ==
   /\ IsOk(res)
@@ -570,7 +587,7 @@ RestoreCore(ord, idx, valid, res) ==
                 !.inval = @ \cup ((ord + 1)..(nextOrd - 1)),
                 !.psp = [id \in {i \in DOMAIN wtx.psp : wtx.psp[i].ord <= ord} |-> wtx.psp[id]],
                 !.pspMod = @ \/ (\E id \in DOMAIN wtx.psp : wtx.psp[id].ord > ord)]
-  /\ UNCHANGED <<hist, dur, inflight, readers, eph, nextOrd, its, latch>>
+  /\ UNCHANGED <<hist, dur, inflight, readers, rpend, eph, nextOrd, its, latch>>
 
 RestoreEph(s, res) ==
   /\ s \in DOMAIN eph
@@ -596,16 +613,25 @@ Compact(res) ==
      ELSE IF latch # "ok" THEN IsErr(res)
      ELSE IsOk(res) /\ res.ok \in BOOLEAN
   /\ dur' = IF IsErr(res) THEN dur ELSE Len(hist)       \* its commits are durable
-  /\ UNCHANGED <<hist, inflight, wtx, readers, eph, nextOrd, its, latch>>
+  /\ UNCHANGED <<hist, inflight, wtx, readers, rpend, eph, nextOrd, its, latch>>
 
-\* check_integrity() on a healthy database
-CheckIntegrity(res) ==
+\* check_integrity() on a healthy database.  stale = the layout in memory is ahead of the one in the
+\* on-disk header (a transaction grew the file and ended without a durable commit).
+\* KNOWN FINDING C11/integrity-false-after-unpersisted-growth: in that situation the real code reports
+\* Ok(FALSE) ("repaired") although nothing is damaged; the deviation is named here as its own
+\* disjunct, reported through Known(), and accepted only if known_findings.txt lists it.
+Known(sig, R) == PrintT(<<"KNOWN", sig, R.run, R.i>>)
+
+CheckIntegrity(res, stale, R) ==
   /\ ~wtx.on
   /\ IF DOMAIN readers # {} \/ DOMAIN its # {} \/ (\E s \in DOMAIN eph : eph[s].valid)
      THEN IsE(res, "TransactionInProgress") /\ UNCHANGED dur
      ELSE IF latch # "ok" THEN IsErr(res) /\ UNCHANGED dur
-     ELSE res = Ok(TRUE) /\ dur' = Len(hist)       \* pending non-durable commits become durable
-  /\ UNCHANGED <<hist, inflight, wtx, readers, eph, nextOrd, its, latch>>
+     ELSE /\ IF res = Ok(TRUE) THEN TRUE
+             ELSE IF stale /\ res = Ok(FALSE) THEN Known("C11/integrity-false-after-unpersisted-growth", R)
+             ELSE FALSE
+          /\ dur' = Len(hist)       \* pending non-durable commits become durable
+  /\ UNCHANGED <<hist, inflight, wtx, readers, rpend, eph, nextOrd, its, latch>>
 
 \* Database dropped cleanly and opened again; obs is the full dump after opening
 Reopen(obs) ==
@@ -618,14 +644,14 @@ Reopen(obs) ==
           /\ hist' = Append(hist, CHOOSE db \in CrashCandidates : ObsMatches(obs, db))
   /\ dur' = Len(hist')
   /\ eph' = EmptyFn /\ latch' = "ok" /\ inflight' = <<>>
-  /\ UNCHANGED <<wtx, readers, nextOrd, its>>
+  /\ UNCHANGED <<wtx, readers, rpend, nextOrd, its>>
 
 \* the process stops here and the file is reopened; obs is the dump after recovery
 Crash(obs) ==
   /\ CrashAtomic(obs)
   /\ hist' = Append(hist, CHOOSE db \in CrashCandidates : ObsMatches(obs, db))
   /\ dur' = Len(hist')
-  /\ wtx' = NoTx /\ readers' = EmptyFn /\ eph' = EmptyFn /\ its' = EmptyFn
+  /\ wtx' = NoTx /\ readers' = EmptyFn /\ rpend' = EmptyFn /\ eph' = EmptyFn /\ its' = EmptyFn
   /\ latch' = "ok" /\ inflight' = <<>>
   /\ UNCHANGED nextOrd
 
